@@ -117,7 +117,10 @@ func complete(input string) bool {
 			// any other lexer error is for the parser to report, on the whole block or literal the
 			// offending line belongs to: what follows the last token cannot be tokenised and is
 			// judged on its characters
-			blocks, brackets := countOpen(input[l.Token.To():])
+			blocks, brackets, inString := countOpen(input[l.Token.To():])
+			if inString {
+				return false
+			}
 			blocksOpen += blocks
 			bracketsOpen += brackets
 			break
@@ -158,9 +161,10 @@ func complete(input string) bool {
 }
 
 // countOpen counts the braces and brackets of text that cannot be tokenised,
-// skipping string literals and comments as well as it can be done by hand.
-func countOpen(text string) (blocks, brackets int) {
-	inString, inComment, escaped := false, false, false
+// skipping string literals and comments as well as it can be done by hand. It
+// also reports whether the text ends inside a string literal.
+func countOpen(text string) (blocks, brackets int, inString bool) {
+	inComment, escaped := false, false
 	for _, c := range text {
 		switch {
 		case inComment:
@@ -182,7 +186,7 @@ func countOpen(text string) (blocks, brackets int) {
 			brackets--
 		}
 	}
-	return blocks, brackets
+	return blocks, brackets, inString
 }
 
 func processInput(input string, p Parser, vm *vm.Type, doOut bool) {
